@@ -225,7 +225,9 @@ fn build_seq(e: &mut Ent) -> Seq {
     image.push((code, body));
     let mut er = e.regfile();
     er[7] = 0xfff040;
-    Seq { prog: Prog { image, er, ccr: e.u8() & 0x7f, pc: code, bus: e.bus_cfg() }, stop, texts, handlers }
+    let (ccr, bus) = (e.u8() & 0x7f, e.bus_cfg());
+    image.extend(e.env_noise());
+    Seq { prog: Prog { image, er, ccr, pc: code, bus }, stop, texts, handlers }
 }
 
 fn run_seq(emu: &mut Emu, s: &Seq) -> Result<usize, String> {
